@@ -193,6 +193,9 @@ def print_via(d, o, how):
         return f.getvalue()
     p = os.path.join(tempfile.gettempdir(), "mfv_c03_%d.map" % os.getpid())
     try:
+        # saving replaces whatever the file held: an older, longer Mapfile is already there
+        with open(p, "w", encoding="utf-8") as f:
+            f.write("MAP\n" + "  LAYER\n    NAME \"stale\"\n  END\n" * 40 + "END\n")
         mappyfile.save(d, p, **o)
         with open(p, encoding="utf-8", newline="") as f:
             return f.read()
@@ -293,7 +296,7 @@ def search(acc: Acc, tier, shard, nshards):
         if o is None:
             acc.excl("both_quotes_in_strings")
             return []
-        how = ch.choice(["dumps"] * 24 + ["public_dumps", "dump", "save"])
+        how = ch.choice(["dumps"] * 20 + ["public_dumps", "dump", "dump", "save", "save", "save"])
         s = model.stats_of(doc)
         nt = "str" in s["classes"] and len(s["classes"]) >= 2
         acc.case([doc, src, sorted(o.items())], nt, sample={"source": src, "options": o, "printed": W.dumps(d, **o)[:600]} if nt and len(acc.samples) < 2 else None)
@@ -414,9 +417,12 @@ def machine(acc: Acc, tier, shard, nshards):
             o = dict(options.DEFAULT)
             o.pop("separate_complex_types")
             o.update(opts or {})
-            ds = check_print(self.d, o, {})
+            # every fifth check writes through save (onto an existing file) or dump instead of dumps
+            self.nchecks = getattr(self, "nchecks", 0) + 1
+            how = "dumps" if self.nchecks % 5 else ("save" if self.nchecks % 10 else "dump")
+            ds = check_print(self.d, o, {}, how)
             if ds:
-                self._fail(ds[0].bucket, ds[0].message, o)
+                self._fail(ds[0].bucket, ds[0].message, dict(o, __how__=how))
 
         def _pick(self, ch):
             return ch.choice(objects_of(self.d))
@@ -633,7 +639,9 @@ def replay(case):
     W = env.Workers.get()
     if case.get("frozen") is not None and case.get("options"):
         # a machine failure: the dictionary the history had reached, rebuilt with its classes and shared objects
-        return check_print(thaw(case["frozen"]), case["options"], case)
+        o = dict(case["options"])
+        how = o.pop("__how__", "dumps")
+        return check_print(thaw(case["frozen"]), o, case, how)
     if "file" in case:
         from .. import corpus
 
